@@ -1,43 +1,98 @@
-"""C14 - API commands: same order, one acknowledgement each, no side effects on error"""
+"""C14 - API commands: same order, one acknowledgement each, no side effects on error
+
+Development aid: VERIF_C14_KNOWN="pattern,pattern" (fnmatch on signatures) turns matching violations into
+`tolerated:<signature>` classes so that the search goes on behind findings which are not yet listed in
+known_findings.json.  Registered commands never set it.
+
+The command grammar (see `command`) walks every command the API registers (reactor/api/dispatch/v6.py is the
+tree; dispatch/v4.py the older spellings).  Left out on purpose:
+  * `system crash` / `crash`: a debugging command whose handler raises on purpose (it answers `done` and then the
+    asynchronous error handler answers `error` - two terminal replies by construction);
+  * `daemon shutdown` / `shutdown` anywhere but as the very last line (the main loop ends with it, nothing written
+    after it is ever executed);
+  * `peer delete` / `delete neighbor` of a *configured* neighbor (the neighbor set is the fixed point of the side
+    effect oracle); it is generated for addresses created by `peer create` and for addresses nobody has;
+  * `system api version <other>`: the reply says "effective on next process restart" while the dispatcher reads the
+    value on every command - what the next command means would be ambiguous; the current value, no value and
+    invalid values are generated.
+"""
 
 from __future__ import annotations
 
+import asyncio
+import contextlib
+import fnmatch
+import io
 import json
+import os
+import sys
 
 from hypothesis import strategies as st
 
 from vlib import exa, vloop
 from vlib import netharness as nh
-from vlib.runner import Engine, Violation
+from vlib.refwire import build as wire
+from vlib.refwire import codec
+from vlib.runner import Engine, Inconclusive, Violation
 
 PROPERTY = 'C14'
 RULE = (
-    'real Reactor + real Processes (pipe-backed helper process) with 1-4 neighbors (addresses sharing a textual prefix such as 10.0.0.1 / 10.0.0.10, different peer-as / router-id); '
-    'command sequence (1-30 lines) from a grammar: announce / withdraw route (valid and invalid), several `;`-separated statements on one line (all valid, or one refused, whose prefixes must never reach a RIB), eor, route-refresh, watchdog, rib flush, session ack enable, comments, empty lines, unknown verbs, '
-    'v4 spellings under API v6 and the reverse; selectors: *, one address, address + key/value terms that match or not, bracket lists, selectors matching no neighbor; '
-    'the byte stream is written to the pipe in chunks cut at drawn points (1-byte chunks, cuts inside a line and across the newline); API version 6 and 4. '
+    'real Reactor + real Processes (pipe-backed helper process) with 1-6 neighbors (addresses sharing a textual prefix such as 10.0.0.1 / 10.0.0.10, different peer-as / router-id, one with fewer families); '
+    'command sequence (1-30 lines) from a grammar over every registered command, v6 spellings (`peer <selector> ...`, `rib ...`, `session ...`, `system ...`, `daemon ...`) and v4 spellings, valid and invalid forms: '
+    'announce / withdraw of route, `ipv4 unicast`, `ipv6 unicast`, `ipv4 mpls-vpn`, flow (braced, one-line and `ipv4 flow`), vpls, attributes ... nlri, operational (asm adm rpcq rpcp apcq lpcq), eor and route-refresh of several families, watchdog, '
+    'several `;`-separated statements on one line (all valid, or one refused, whose prefixes must never reach a RIB), sync / async / json / text suffixes; '
+    'rib show / flush / clear (in, out, filters), teardown, peer show / list, routes list / add / remove, peer create / delete, group start / end blocks with buffered lines and one-line `peer <selector> group a ; b`, '
+    'session ack enable / disable / silence (the expected number of terminal replies follows the acknowledgement state), sync enable / disable, ping, bye, reset, version, help, status, queue-status, api version, daemon reload / restart, '
+    'shutdown only as the last line, comments, empty lines, extra white space, unknown verbs, the other version\'s spellings; '
+    'selectors: *, one address, address + key/value terms that match or not (peer-as local-as router-id local-ip family-allowed), bracket lists, selectors matching no neighbor; '
+    'the byte stream is written to the pipe in chunks cut at drawn points (1-byte chunks, cuts inside a line and across the newline); API version 6 and 4; '
+    'the BGP sessions of none, some or all neighbors are established before the first line (a remote speaker answers the OPEN, keeps the session alive and counts what it is sent). '
+    'Every form of every command is also run once per tier in enumerated sequences (tours(): both versions, every selector shape, a group block of buffered lines, sessions up). '
     'Non-trivial = >= 1 rejected command, >= 1 selective command with >= 2 neighbors, and >= 1 cut inside a line'
 )
 ASSUMPTIONS = [
     'an independent 12-line matcher over the configured neighbor attributes decides which neighbors a selector names',
-    'a terminal reply is a line that is exactly `done` or `error` (or the JSON done/error object); the free-text `error: ...` line that precedes `error` is not counted',
-    'the RIB fingerprint is: cached Adj-RIB-Out routes, queued announces, pending withdraws, watchdog sets, eor / refresh / operational queues of every neighbor',
+    'a terminal reply is a line that is exactly `done` or `error` (or the JSON done/error object); the free-text `error: ...` line that precedes `error`, and the data lines of informational commands, are not counted',
+    'acknowledgements: `session ack disable` is itself answered (documented: "sends done for this command, then disables"), `session ack silence` is not; while disabled no command gets a terminal reply; `session ack enable` is answered',
+    (
+        'the RIB fingerprint is: cached Adj-RIB-Out routes of every family, queued announces, pending withdraws, watchdog sets, eor / refresh / operational queues (content), ASM table and Adj-RIB-In size of every configured neighbor, '
+        'and the number of UPDATE / NOTIFICATION / ROUTE-REFRESH / OPERATIONAL messages and of sessions its remote speaker has seen (a neighbor no command named is sent keepalives only)'
+    ),
     'commands that match change *at most* the matching neighbors; that they do change them is decided by C04/C01',
-    'no BGP session is up: commands act on the RIBs only',
+    'eor / route-refresh need an established session: done is demanded when one of the neighbors they name was established at the start and no line since could have brought it down, either reply is accepted otherwise',
+    (
+        'lenient forms ExaBGP accepts without documenting them (`rib clear` without direction, attributes without nlri, unknown operational name, `routes add` without the word route), '
+        'a group line one statement of which is refused, a second `peer create` of the same neighbor, `peer delete` of a neighbor made at run time: either terminal reply is accepted, the side-effect clauses still apply'
+    ),
+    'a line buffered by `group start` is answered done and changes nothing until `group end`, which may change every neighbor of the process',
+    'which command a missing / extra terminal reply belongs to (signature only, not the verdict) is read from the order in which Processes.write was called',
+    'neighbors made by `peer create` are outside the fingerprinted set',
+    'a `daemon shutdown` is written once everything before it was answered; the helper reads its pipe all along',
 ]
+
+TOLERATED = [p for p in os.environ.get('VERIF_C14_KNOWN', '').split(',') if p]
 
 POOL = [
     {'ip': '10.0.0.1', 'peer_as': 65001, 'rid': '1.1.1.1', 'local_as': 65000},
     {'ip': '10.0.0.10', 'peer_as': 65002, 'rid': '1.1.1.2', 'local_as': 65000},
-    {'ip': '10.0.0.2', 'peer_as': 65001, 'rid': '1.1.1.3', 'local_as': 64999},
+    {'ip': '10.0.0.2', 'peer_as': 65001, 'rid': '1.1.1.3', 'local_as': 64999, 'families': ['ipv4 unicast', 'ipv4 flow']},
     {'ip': '192.0.2.7', 'peer_as': 65003, 'rid': '1.1.1.4', 'local_as': 65000},
     # IPv6 neighbors, one address a textual prefix of the other up to a colon (appended: stored cases name neighbors by position)
     {'ip': '2001:db8::1', 'peer_as': 65001, 'rid': '1.1.1.5', 'local_as': 65000, 'local_ip': '2001:db8::ffff'},
     {'ip': '2001:db8::1:5', 'peer_as': 65001, 'rid': '1.1.1.6', 'local_as': 65000, 'local_ip': '2001:db8::ffff'},
 ]
+FAMILIES = ['ipv4 unicast', 'ipv6 unicast', 'ipv4 flow', 'ipv4 mpls-vpn', 'l2vpn vpls']
 GHOSTS = ['10.0.0.100', '10.0.0.3', '192.0.2.70', '2001:db8::1:50', '2001:db8::']
+DYNAMIC = ['10.9.9.1', '10.9.9.2']  # only ever made by `peer create`
 PREFIXES = ['10.1.0.0/24', '10.1.1.0/24', '10.2.0.0/16']
 GHOST_PREFIXES = ['10.66.0.0/24', '10.66.1.0/24']  # only ever named by commands that are refused: must never reach a RIB
+# everything a refused command names sits in 10.66.0.0/16 or 2001:db8:66::/48 (prefixes, flow components, route distinguishers)
+GHOST_MARKS = ['10.66.', '2001:db8:66:']
+SERVICE = 'helper'
+FAMILY_CODES = {'ipv4 unicast': (1, 1), 'ipv6 unicast': (2, 1), 'ipv4 flow': (1, 133), 'ipv4 mpls-vpn': (1, 128), 'l2vpn vpls': (25, 65)}
+
+# families whose violation signatures keep the names they had before the grammar grew
+LEGACY_FAMILIES = {'route', 'route-multi', 'eor', 'route-refresh', 'watchdog', 'rib-flush', 'comment', 'empty', 'unknown', 'other-version', 'ack'}
 
 
 def matches(sel: dict, n: dict) -> bool:
@@ -47,7 +102,8 @@ def matches(sel: dict, n: dict) -> bool:
     if sel['ip'] != n['ip']:
         return False
     for key, value in sel.get('terms', []):
-        have = {'peer-as': str(n['peer_as']), 'local-as': str(n['local_as']), 'router-id': n['rid'], 'local-ip': n.get('local_ip', '127.0.0.1')}[key]
+        # no neighbor asks for multi-session: the families it would name are negotiated "in-open"
+        have = {'peer-as': str(n['peer_as']), 'local-as': str(n['local_as']), 'router-id': n['rid'], 'local-ip': n.get('local_ip', '127.0.0.1'), 'family-allowed': 'in-open'}[key]
         if str(value) != have:
             return False
     return True
@@ -80,10 +136,10 @@ def selector_item(draw, neighbors):
         base = neighbors[0] if draw(st.booleans()) else draw(st.sampled_from(neighbors))
         ip = base['ip']
     terms = []
-    for key, good in (('peer-as', base['peer_as']), ('local-as', base['local_as']), ('router-id', base['rid']), ('local-ip', base.get('local_ip', '127.0.0.1'))):
-        if draw(st.integers(0, 3)) == 0:
+    for key, good in (('peer-as', base['peer_as']), ('local-as', base['local_as']), ('router-id', base['rid']), ('local-ip', base.get('local_ip', '127.0.0.1')), ('family-allowed', 'in-open')):
+        if draw(st.integers(0, 3 if key != 'family-allowed' else 7)) == 0:
             if draw(st.integers(0, 2)) == 0:
-                bad = {'peer-as': 64000, 'local-as': 64001, 'router-id': '9.9.9.9', 'local-ip': '127.0.0.9'}[key]
+                bad = {'peer-as': 64000, 'local-as': 64001, 'router-id': '9.9.9.9', 'local-ip': '127.0.0.9', 'family-allowed': 'ipv4-unicast'}[key]
                 terms.append([key, bad])
             else:
                 terms.append([key, good])
@@ -100,91 +156,680 @@ def selectors(draw, neighbors):
     return {'kind': 'list', 'items': draw(st.lists(selector_item(neighbors), min_size=1, max_size=3))}
 
 
+# ---------------------------------------------------------------------------- the command grammar
+#
+# A command is {'line', 'expect': 'done'|'error'|None (either), 'touch': [neighbor indexes that may change],
+# 'selective': bool, 'fam': family label, 'refused': bool (an unknown command or one that fails to parse), 'fx': state
+# change, see annotate()}.  `expect` / `touch` are what holds outside a group block with acknowledgements on;
+# annotate() applies the acknowledgement and grouping state the earlier lines of the sequence left behind.
+
+# (weight, kind): the kinds the check always had keep four draws in ten (the stored defects live there)
+KINDS = [
+    (9, 'announce'), (3, 'withdraw'), (3, 'invalid-route'), (3, 'invalid-multi'), (3, 'valid-multi'), (1, 'eor'), (1, 'refresh'), (2, 'watchdog'), (1, 'flush'),
+    (1, 'comment'), (1, 'empty'), (2, 'unknown'), (2, 'unknown-after-selector'), (2, 'other-version'), (1, 'ack-enable'),
+    (3, 'family-unicast'), (2, 'family-ipv6'), (2, 'family-vpn'), (3, 'flow'), (3, 'vpls'), (3, 'attributes'), (3, 'operational'), (2, 'eor-families'), (2, 'refresh-families'),
+    (1, 'announce-unknown-type'), (1, 'selector-empty-list'), (1, 'watchdog-forms'), (3, 'rib-show'), (2, 'rib-flush-clear'), (2, 'teardown'), (3, 'peer-show'), (3, 'info'), (2, 'session'),
+    (2, 'ack'), (3, 'group-inline'), (1, 'group-marker'), (3, 'routes'), (2, 'peer-create'), (1, 'peer-delete'), (1, 'daemon'), (1, 'noise'),
+]  # fmt: skip
+KIND_POOL = [k for w, k in KINDS for _ in range(w)]
+
+SUFFIXES = ['', '', '', '', ' sync', ' async', ' json', ' text', ' json sync']
+FLOW_GOOD = [
+    'flow route {{ match {{ source {p}; }} then {{ discard; }} }}',
+    'flow route {{ match {{ destination {p}; destination-port =3128; protocol tcp; }} then {{ rate-limit 9600; }} }}',
+    'flow route destination {p} discard',
+    'flow route source {p} destination-port =80 rate-limit 9600',
+]
+FLOW_PREFIXES = ['10.5.0.0/24', '10.5.1.0/24']
+VPLS_GOOD = 'vpls rd 192.168.201.1:{n} endpoint 5 base 10702 offset 1 size 8 next-hop 192.168.201.1'
+OPERATIONAL_GOOD = [
+    'asm afi ipv4 safi unicast advisory "hello world"',
+    'adm afi ipv4 safi unicast advisory "maintenance"',
+    'rpcq afi ipv4 safi unicast sequence 3',
+    'rpcp afi ipv4 safi unicast sequence 3 counter 200',
+    'apcq afi ipv4 safi unicast sequence 4',
+    'lpcq afi ipv6 safi unicast sequence 5',
+    'lpcp afi ipv4 safi unicast sequence 5 counter 250',
+]
+ROUTE_INDEX = (b'01010101disabled' + bytes([24, 10, 1, 0])).hex()  # what `routes add route 10.1.0.0/24 ...` answers
+EOR_FAMILIES = ['', 'ipv4 unicast', 'ipv6 unicast', 'ipv4 flow', 'ipv4 mpls-vpn', 'l2vpn vpls']
+
+
+def cmd(line: str, expect, touch, selective: bool, fam: str, refused: bool = False, fx: str | None = None, **more) -> dict:
+    out = {'line': line, 'expect': expect, 'touch': list(touch), 'selective': selective, 'fam': fam, 'refused': refused}
+    if fx:
+        out['fx'] = fx
+    out.update(more)
+    return out
+
+
+def v4_head(sel: dict, brackets: bool = False) -> str:
+    if sel['kind'] == 'all':
+        return ''
+    if sel['kind'] == 'single' or brackets:
+        # (the bracket list of v6 is understood behind the word neighbor as well)
+        return f'neighbor {selector_text(sel)} '
+    # v4 lists selectors as "neighbor A , neighbor B"
+    return ' , '.join('neighbor ' + ' '.join([s['ip']] + [f'{k} {v}' for k, v in s.get('terms', [])]) for s in sel['items']) + ' '
+
+
 @st.composite
-def command(draw, neighbors, version):
-    """{'line': text, 'expect': 'done'|'error', 'touch': [neighbor indexes] (may change), 'selective': bool}"""
+def command(draw, neighbors, version, kinds=None, for_everyone=False):
+    """one command line of any registered command, in the spelling of `version` (under v4 sometimes the v6 one, which v4 accepts too)"""
+    sel = {'kind': 'all'} if for_everyone else draw(selectors(neighbors))
+    return build(lambda options: draw(st.sampled_from(options)), neighbors, version, sel, kinds or KIND_POOL)
+
+
+def build(pick, neighbors: list[dict], version: int, sel: dict, kinds: list[str]) -> dict:
+    """the grammar proper: every choice goes through pick(options), so that the same code serves the Hypothesis strategy
+    (pick draws) and the enumeration of every form for the fixed tours (pick walks, see tours())"""
     everyone = list(range(len(neighbors)))
-    kind = draw(
-        st.sampled_from(['announce', 'announce', 'announce', 'withdraw', 'invalid-route', 'invalid-multi', 'valid-multi', 'eor', 'refresh', 'watchdog', 'flush', 'comment', 'empty', 'unknown', 'unknown-after-selector', 'other-version', 'ack-enable'])
-    )
-    sel = draw(selectors(neighbors))
+    kind = pick(kinds)
     who = selected(sel, neighbors)
-    prefix = draw(st.sampled_from(PREFIXES))
-    med = draw(st.integers(1, 3))
-    if version == 6:
-        head = f'peer {selector_text(sel)} '
-    else:
-        if sel['kind'] == 'all':
-            head = ''
-        elif sel['kind'] == 'single':
-            head = f'neighbor {selector_text(sel)} '
-        else:
-            # v4 lists selectors as "neighbor A , neighbor B"
-            head = ' , '.join('neighbor ' + ' '.join([s['ip']] + [f'{k} {v}' for k, v in s.get('terms', [])]) for s in sel['items']) + ' '
+    prefix = pick(PREFIXES)
+    med = pick([1, 2, 3])
+    head = f'peer {selector_text(sel)} ' if version == 6 else v4_head(sel, sel['kind'] == 'list' and pick([False, False, True]))
+    # the spelling of the commands without a neighbor selector: v4 understands the v6 words as well
+    spell = 6 if version == 6 else pick([4, 4, 4, 6])
     selective = sel['kind'] != 'all'
     matched = 'done' if who else 'error'
+
+    # ------------------------------------------------------------------ the kinds the check always had
     if kind == 'announce':
-        return {'line': f'{head}announce route {prefix} next-hop 1.2.3.4 med {med}', 'expect': matched, 'touch': who, 'selective': selective}
+        return cmd(f'{head}announce route {prefix} next-hop 1.2.3.4 med {med}', matched, who, selective, 'route')
     if kind == 'withdraw':
-        return {'line': f'{head}withdraw route {prefix} next-hop 1.2.3.4', 'expect': matched, 'touch': who, 'selective': selective}
+        # a withdraw needs no next-hop
+        return cmd(f'{head}withdraw route {prefix}{pick([" next-hop 1.2.3.4", " next-hop 1.2.3.4", ""])}', matched, who, selective, 'route')
     if kind == 'invalid-route':
-        bad = draw(st.sampled_from(['10.1.0.0/33 next-hop 1.2.3.4', '10.1.0.0/24 next-hop 1.2.3.999', '10.1.0.0/24 next-hop 1.2.3.4 med banana', '10.1.0.0/24 next-hop 1.2.3.4 frobnicate 3']))
-        return {'line': f'{head}announce route {bad}', 'expect': 'error', 'touch': [], 'selective': selective}
+        bad = pick(['10.1.0.0/33 next-hop 1.2.3.4', '10.1.0.0/24 next-hop 1.2.3.999', '10.1.0.0/24 next-hop 1.2.3.4 med banana', '10.1.0.0/24 next-hop 1.2.3.4 frobnicate 3', 'withdraw', 'no-next-hop', 'bare'])
+        if bad == 'withdraw':
+            return cmd(f'{head}withdraw route {pick(["10.66.6.0/33 next-hop 1.2.3.4", "10.66.6.0/24 next-hop 1.2.3.4 med banana"])}', 'error', [], selective, 'route', True)
+        if bad == 'no-next-hop':
+            # an announce has to say where the route points
+            return cmd(f'{head}announce route 10.66.6.0/24 med {med}', 'error', [], selective, 'route', True)
+        if bad == 'bare':
+            return cmd(f'{head}{pick(["announce", "withdraw"])} route', 'error', [], selective, 'route', True)
+        return cmd(f'{head}announce route {bad}', 'error', [], selective, 'route', True)
     if kind == 'invalid-multi':
         # several statements on one line, one of them refused: the whole command is, and nothing of it may stay behind
-        good = f'route {draw(st.sampled_from(GHOST_PREFIXES))} next-hop 1.2.3.4 med {med}'
-        bad = 'route ' + draw(st.sampled_from(['10.66.9.0/24 next-hop not-an-ip', '10.66.9.0/33 next-hop 1.2.3.4', '10.66.9.0/24 next-hop 1.2.3.4 med banana']))
-        parts = draw(st.sampled_from([[good, bad], [bad, good], [good, good.replace('.0/24', '.128/25'), bad]]))
-        return {'line': f'{head}announce ' + ' ; '.join(parts), 'expect': 'error', 'touch': [], 'selective': selective}
+        good = f'route {pick(GHOST_PREFIXES)} next-hop 1.2.3.4 med {med}'
+        bad = 'route ' + pick(['10.66.9.0/24 next-hop not-an-ip', '10.66.9.0/33 next-hop 1.2.3.4', '10.66.9.0/24 next-hop 1.2.3.4 med banana'])
+        parts = pick([[good, bad], [bad, good], [good, good.replace('.0/24', '.128/25'), bad]])
+        return cmd(f'{head}announce ' + ' ; '.join(parts), 'error', [], selective, 'route-multi', True)
     if kind == 'valid-multi':
-        other = draw(st.sampled_from([x for x in PREFIXES if x != prefix]))
-        return {'line': f'{head}announce route {prefix} next-hop 1.2.3.4 med {med} ; route {other} next-hop 1.2.3.4 med {med}', 'expect': matched, 'touch': who, 'selective': selective}
+        other = pick([x for x in PREFIXES if x != prefix])
+        return cmd(f'{head}announce route {prefix} next-hop 1.2.3.4 med {med} ; route {other} next-hop 1.2.3.4 med {med}', matched, who, selective, 'route-multi')
     if kind == 'eor':
         # needs an established session to be accepted: with none up either terminal reply is right
-        return {'line': f'{head}announce eor ipv4 unicast', 'expect': None if who else 'error', 'touch': who, 'selective': selective}
+        return cmd(f'{head}announce eor ipv4 unicast', None if who else 'error', who, selective, 'eor', session=True)
     if kind == 'refresh':
-        return {'line': f'{head}announce route-refresh ipv4 unicast', 'expect': None if who else 'error', 'touch': who, 'selective': selective}
+        return cmd(f'{head}announce route-refresh ipv4 unicast', None if who else 'error', who, selective, 'route-refresh', session=True)
     if kind == 'watchdog':
-        verb = draw(st.sampled_from(['announce', 'withdraw']))
-        return {'line': f'{head}{verb} watchdog dog{draw(st.integers(1, 2))}', 'expect': matched, 'touch': who, 'selective': selective}
+        return cmd(f'{head}{pick(["announce", "withdraw"])} watchdog dog{pick([1, 2])}', matched, who, selective, 'watchdog')
     if kind == 'flush':
-        if version == 6:
-            return {'line': 'rib flush out', 'expect': 'done', 'touch': everyone, 'selective': False}
-        return {'line': 'flush adj-rib out', 'expect': 'done', 'touch': everyone, 'selective': False}
+        return cmd('rib flush out' if version == 6 else 'flush adj-rib out', 'done', everyone, False, 'rib-flush')
     if kind == 'comment':
-        return {'line': '# ' + draw(st.sampled_from(['a comment', 'peer * announce route 10.9.9.0/24 next-hop 1.2.3.4', ''])), 'expect': 'done', 'touch': [], 'selective': False}
+        return cmd('# ' + pick(['a comment', 'peer * announce route 10.9.9.0/24 next-hop 1.2.3.4', '']), 'done', [], False, 'comment')
     if kind == 'empty':
-        return {'line': '', 'expect': 'done', 'touch': [], 'selective': False}
+        return cmd('', 'done', [], False, 'empty')
     if kind == 'unknown':
-        return {'line': draw(st.sampled_from(['frobnicate', 'frobnicate the route 10.1.0.0/24', 'announce', 'peer', 'rib'])), 'expect': 'error', 'touch': [], 'selective': False}
+        return cmd(pick(['frobnicate', 'frobnicate the route 10.1.0.0/24', 'announce', 'peer', 'rib', 'withdraw', 'neighbor', 'system', 'session', 'daemon', 'peer *', 'show', 'group', 'peer [ 10.0.0.1 announce route 10.66.0.0/24 next-hop 1.2.3.4', 'peer 10.0.0.1 peer-as']), 'error', [], False, 'unknown', True)
     if kind == 'unknown-after-selector':
-        return {'line': f'{head}frobnicate route {prefix}', 'expect': 'error', 'touch': [], 'selective': selective}
+        rest = pick([f'frobnicate route {prefix}', f'frobnicate route {prefix}', 'announce', 'withdraw', ''])
+        if not head:
+            # no selector (v4, every neighbor): a verb without a type, or a word nobody knows
+            return cmd(rest or 'frobnicate', 'error', [], False, 'unknown', True)
+        return cmd(f'{head}{rest}'.rstrip(), 'error', [], selective and bool(rest), 'unknown', True)
     if kind == 'other-version':
         if version == 6:
-            line = draw(st.sampled_from([f'announce route {prefix} next-hop 1.2.3.4', f'neighbor {neighbors[0]["ip"]} announce route {prefix} next-hop 1.2.3.4']))
+            # the v4 spellings mean nothing to v6: no RIB, no acknowledgement state, nothing may change
+            line = pick(
+                [
+                    f'announce route {prefix} next-hop 1.2.3.4',
+                    f'neighbor {neighbors[0]["ip"]} announce route {prefix} next-hop 1.2.3.4',
+                    f'withdraw route {prefix} next-hop 1.2.3.4',
+                    'clear adj-rib out',
+                    'flush adj-rib out',
+                    'show neighbor summary',
+                    'show adj-rib out',
+                    'teardown 4',
+                    'version',
+                    'disable-ack',
+                    'silence-ack',
+                    f'create neighbor {DYNAMIC[0]} local-address 127.0.0.1 local-as 65000 peer-as 65009',
+                ]
+            )
+            return cmd(line, 'error', [], False, 'other-version', True)
+        return cmd(f'peer * announce route {prefix} next-hop 1.2.3.4', None, everyone, False, 'other-version')
+    if kind == 'ack-enable':
+        return cmd('session ack enable', 'done', [], False, 'ack', fx='ack-enable')
+
+    # ------------------------------------------------------------------ announce / withdraw of the other families
+    verb = pick(['announce', 'announce', 'withdraw'])
+    suffix = pick(SUFFIXES)
+    if kind == 'family-unicast':
+        form = pick(['good', 'good', 'good', 'mask', 'next-hop', 'safi', 'bare'])
+        if form == 'good':
+            return cmd(f'{head}{verb} ipv4 unicast {prefix} next-hop 1.2.3.4 med {med}{suffix}', matched, who, selective, 'ipv4-unicast')
+        bad = {'mask': 'ipv4 unicast 10.66.2.0/33 next-hop 1.2.3.4', 'next-hop': 'ipv4 unicast 10.66.2.0/24 next-hop 1.2.3.999', 'safi': 'ipv4 frobnicate 10.66.2.0/24 next-hop 1.2.3.4', 'bare': 'ipv4'}[form]
+        return cmd(f'{head}{verb} {bad}', 'error', [], selective, 'ipv4-unicast', True)
+    if kind == 'family-ipv6':
+        form = pick(['good', 'good', 'good', 'route', 'mask', 'next-hop', 'afi'])
+        if form == 'good':
+            return cmd(f'{head}{verb} ipv6 unicast 2001:db8:{pick([1, 2])}::/48 next-hop 2001:db8::1{suffix}', matched, who, selective, 'ipv6-unicast')
+        if form == 'route':
+            # the plain route form takes the family from the prefix
+            return cmd(f'{head}{verb} route 2001:db8:{pick([1, 2])}::/48 next-hop 2001:db8::1{suffix}', matched, who, selective, 'ipv6-unicast')
+        bad = {'mask': 'ipv6 unicast 2001:db8:66::/129 next-hop 2001:db8::1', 'next-hop': 'ipv6 unicast 2001:db8:66::/48 next-hop banana', 'afi': 'ipv6 unicast 10.66.2.0/24 next-hop 2001:db8::1'}[form]
+        return cmd(f'{head}{verb} {bad}', 'error', [], selective, 'ipv6-unicast', True)
+    if kind == 'family-vpn':
+        form = pick(['good', 'good', 'rd', 'label'])
+        if form == 'good':
+            return cmd(f'{head}{verb} ipv4 mpls-vpn 10.3.{pick([0, 1])}.0/24 next-hop 1.2.3.4 rd 65000:1 label [ 100 ]{suffix}', matched, who, selective, 'ipv4-mpls-vpn')
+        bad = {'rd': 'ipv4 mpls-vpn 10.66.3.0/24 next-hop 1.2.3.4 rd banana label [ 100 ]', 'label': 'ipv4 mpls-vpn 10.66.3.0/24 next-hop 1.2.3.4 rd 65000:1 label [ banana ]'}[form]
+        return cmd(f'{head}{verb} {bad}', 'error', [], selective, 'ipv4-mpls-vpn', True)
+    if kind == 'flow':
+        form = pick(['good', 'good', 'good', 'ipv4-flow', 'protocol', 'mask', 'action', 'bare'])
+        if form == 'good':
+            return cmd(f'{head}{verb} ' + pick(FLOW_GOOD).format(p=pick(FLOW_PREFIXES)) + suffix, matched, who, selective, 'flow')
+        if form == 'ipv4-flow':
+            # the family form of a flow rule: what it accepts is not documented for the API
+            return cmd(f'{head}{verb} ipv4 flow destination-ipv4 {pick(FLOW_PREFIXES)} rate-limit 0', None if who else 'error', who, selective, 'flow')
+        bad = {
+            'protocol': 'flow route { match { source 10.66.5.0/24; protocol banana; } then { discard; } }',
+            'mask': 'flow route { match { source 10.66.5.0/33; } then { discard; } }',
+            'action': 'flow route { match { source 10.66.5.0/24; } then { frobnicate; } }',
+            'bare': 'flow',
+        }[form]
+        return cmd(f'{head}{verb} {bad}', 'error', [], selective, 'flow', True)
+    if kind == 'vpls':
+        form = pick(['good', 'good', 'good', 'size', 'endpoint', 'bare'])
+        if form == 'good':
+            return cmd(f'{head}{verb} ' + VPLS_GOOD.format(n=pick([123, 124])) + suffix, matched, who, selective, 'vpls')
+        bad = {
+            'size': 'vpls rd 10.66.0.1:123 endpoint 5 base 10702 offset 1 size 70000 next-hop 192.168.201.1',
+            'endpoint': 'vpls rd 10.66.0.1:123 endpoint banana base 10702 offset 1 size 8 next-hop 192.168.201.1',
+            'bare': 'vpls',
+        }[form]
+        return cmd(f'{head}{verb} {bad}', 'error', [], selective, 'vpls', True)
+    if kind == 'attributes':
+        word = pick(['attributes', 'attributes', 'attribute'])
+        form = pick(['good', 'good', 'good', 'no-nlri', 'med', 'mask', 'next-hop'])
+        if form == 'good':
+            nlri = ' '.join(pick([['10.4.0.0/24'], ['10.4.0.0/24', '10.4.1.0/24'], ['10.4.1.0/24', '10.1.0.0/24']]))
+            return cmd(f'{head}{verb} {word} next-hop 1.2.3.4 med {med} nlri {nlri}{suffix}', matched, who, selective, 'attributes')
+        if form == 'no-nlri':
+            return cmd(f'{head}{verb} {word} next-hop 1.2.3.4 med {med}', None if who else 'error', who, selective, 'attributes')
+        bad = {'med': 'next-hop 1.2.3.4 med banana nlri 10.66.4.0/24', 'mask': 'next-hop 1.2.3.4 med 5 nlri 10.66.4.0/24 10.66.9.0/33', 'next-hop': 'next-hop 1.2.3.999 nlri 10.66.4.0/24'}[form]
+        return cmd(f'{head}{verb} {word} {bad}', 'error', [], selective, 'attributes', True)
+    if kind == 'operational':
+        form = pick(['good', 'good', 'good', 'unknown-name', 'short', 'withdraw'])
+        if form == 'good':
+            return cmd(f'{head}announce operational {pick(OPERATIONAL_GOOD)}', matched, who, selective, 'operational')
+        if form == 'unknown-name':
+            # answered done without doing anything: not an error reply, not a change either
+            return cmd(f'{head}announce operational {pick(["frobnicate afi ipv4 safi unicast", ""])}'.rstrip(), None if who else 'error', [], selective, 'operational')
+        if form == 'short':
+            # through `neighbor <selector>` v4 never looks at the arguments (it answers done and does nothing)
+            relaxed = version == 4 and sel['kind'] != 'all'
+            return cmd(f'{head}announce operational asm afi ipv4 safi', (None if who else 'error') if relaxed else 'error', [], selective, 'operational', not relaxed)
+        return cmd(f'{head}withdraw operational {pick(OPERATIONAL_GOOD)}', 'error', [], selective, 'operational', True)
+    if kind == 'eor-families':
+        form = pick(['good', 'good', 'good', 'safi', 'one-word', 'three-words', 'withdraw'])
+        if form == 'good':
+            return cmd(f'{head}announce eor {pick(EOR_FAMILIES)}'.rstrip(), None if who else 'error', who, selective, 'eor', session=True)
+        bad = {'safi': 'announce eor ipv4 frobnicate', 'one-word': 'announce eor ipv4', 'three-words': 'announce eor ipv4 unicast please', 'withdraw': 'withdraw eor ipv4 unicast'}[form]
+        return cmd(f'{head}{bad}', 'error', [], selective, 'eor', True)
+    if kind == 'refresh-families':
+        form = pick(['good', 'good', 'good', 'safi', 'one-word', 'bare', 'withdraw'])
+        if form == 'good':
+            return cmd(f'{head}announce route-refresh {pick(EOR_FAMILIES[1:4])}', None if who else 'error', who, selective, 'route-refresh', session=True)
+        bad = {'safi': 'announce route-refresh ipv4 frobnicate', 'one-word': 'announce route-refresh ipv4', 'bare': 'announce route-refresh', 'withdraw': 'withdraw route-refresh ipv4 unicast'}[form]
+        return cmd(f'{head}{bad}', 'error', [], selective, 'route-refresh', True)
+    if kind == 'selector-empty-list':
+        # a list with nobody in it names nobody
+        what = pick(['announce route ' + prefix + ' next-hop 1.2.3.4', 'withdraw route ' + prefix, 'teardown 6', 'announce watchdog dog1'])
+        # (should the teardown go somewhere all the same, the model of which sessions are up is void from there on)
+        return cmd(f'{"peer" if spell == 6 else "neighbor"} [ ] {what}', 'error', [], True, 'selector-empty-list', fx='sessions-unknown' if 'teardown' in what else None)
+    if kind == 'announce-unknown-type':
+        return cmd(f'{head}{verb} {pick(["frobnicate 10.66.7.0/24 next-hop 1.2.3.4", "l2vpn vpls rd 10.66.0.1:5", "routes", "teardown 6"])}', 'error', [], selective, 'announce-unknown-type', True)
+    if kind == 'watchdog-forms':
+        # without a name the watchdog is named after the process; a route may be filed under a watchdog
+        line = pick([f'{verb} watchdog', f'{verb} watchdog dog3', f'announce route {prefix} next-hop 1.2.3.4 watchdog dog3', f'announce route {prefix} next-hop 1.2.3.4 watchdog dog3 withdraw'])
+        return cmd(f'{head}{line}', matched, who, selective, 'watchdog')
+
+    # ------------------------------------------------------------------ RIB commands
+    if kind == 'rib-show':
+        options = pick(['', '', ' extensive', ' inet', ' flow', ' l2vpn', ' json', f' {neighbors[0]["ip"]}', ' extensive json'])
+        form = pick(['good', 'good', 'good', 'good', 'no-direction', 'direction', 'selector'])
+        direction = pick(['out', 'out', 'in'])
+        if form == 'good':
+            if spell == 6:
+                return cmd(f'rib show {direction}{options}', 'done', [], False, 'rib-show')
+            return cmd(f'show adj-rib {direction}{options}', 'done', [], False, 'rib-show')
+        if form == 'selector':
+            # the RIB commands take no neighbor selector in front
+            return cmd(f'{head}rib show out' if version == 6 and sel['kind'] != 'all' else f'neighbor {neighbors[0]["ip"]} show adj-rib out', 'error', [], False, 'rib-show', True)
+        bad = {('no-direction', 6): 'rib show', ('direction', 6): 'rib show sideways', ('no-direction', 4): 'show adj-rib', ('direction', 4): 'show adj-rib sideways'}[(form, spell)]
+        return cmd(bad, 'error', [], False, 'rib-show', True)
+    if kind == 'rib-flush-clear':
+        form = pick(['flush', 'clear-out', 'clear-out', 'clear-in', 'lenient', 'bad', 'bad'])
+        if form == 'flush':
+            return cmd('rib flush out' if spell == 6 else 'flush adj-rib out', 'done', everyone, False, 'rib-flush')
+        if form == 'clear-out':
+            return cmd('rib clear out' if spell == 6 else 'clear adj-rib out', 'done', everyone, False, 'rib-clear')
+        if form == 'clear-in':
+            return cmd('rib clear in' if spell == 6 else 'clear adj-rib in', 'done', everyone, False, 'rib-clear')
+        if form == 'lenient':
+            # v6 does not look at what follows the verb: accepted or refused, every neighbor may change
+            return cmd(pick(['rib flush in', 'rib flush', 'rib clear', 'rib clear sideways', f'rib flush out {neighbors[0]["ip"]}']), None, everyone, False, 'rib-clear')
+        if version == 6:
+            return cmd(pick(['rib', 'rib frobnicate', 'rib frobnicate out', f'{head}rib clear out' if sel['kind'] != 'all' else 'rib frobnicate']), 'error', [], False, 'rib-clear', True)
+        return cmd(pick(['flush', 'clear', 'flush adj-rib in', 'flush adj-rib', 'clear adj-rib', 'clear adj-rib sideways', f'neighbor {neighbors[0]["ip"]} clear adj-rib out', 'rib frobnicate']), 'error', [], False, 'rib-clear', True)
+    if kind == 'teardown':
+        form = pick(['good', 'good', 'good', 'no-code', 'word'])
+        code = {'good': str(pick([2, 4, 6])), 'no-code': '', 'word': 'banana'}[form]
+        if form != 'good':
+            # a teardown without a usable code is refused whoever it names
+            return cmd(f'{head}teardown {code}'.rstrip(), 'error', [], selective, 'teardown', True)
+        return cmd(f'{head}teardown {code}', matched, who, selective, 'teardown', fx='teardown')
+
+    # ------------------------------------------------------------------ informational commands: data lines, then the terminal reply
+    if kind == 'peer-show':
+        option = pick(['', ' summary', ' summary', ' extensive', ' configuration', ' json'])
+        form = pick(['all', 'all', 'selector', 'list', 'filter'])
+        if form == 'list':
+            return cmd('peer list', 'done', [], False, 'peer-list')
+        if spell == 4:
+            if form == 'filter':
+                option += f' {neighbors[0]["ip"]}'
+            return cmd(f'show neighbor{option}', 'done', [], False, 'peer-show')
+        if form == 'selector':
+            return cmd(f'peer {selector_text(sel)} show{option}', matched, [], selective, 'peer-show')
+        if form == 'filter':
+            return cmd(f'peer show{option} {neighbors[0]["ip"]}', 'done', [], False, 'peer-show')
+        return cmd(f'peer show{option}', 'done', [], False, 'peer-show')
+    if kind == 'info':
+        if spell == 6:
+            line, expect = pick(
+                [
+                    ('system version', 'done'), ('system help', 'done'), ('system queue-status', 'done'), ('daemon status', 'done'), ('system api version', 'done'),
+                    (f'system api version {version}', 'done'), ('system api version 7', 'error'), ('system api version banana', 'error'),
+                    ('system frobnicate', 'error'), ('system api', 'error'), ('daemon frobnicate', 'error'),
+                ]
+            )  # fmt: skip
         else:
-            line = f'peer * announce route {prefix} next-hop 1.2.3.4'
-            return {'line': line, 'expect': None, 'touch': everyone, 'selective': False}
-        return {'line': line, 'expect': 'error', 'touch': [], 'selective': False}
-    return {'line': 'session ack enable', 'expect': 'done', 'touch': [], 'selective': False}
+            line, expect = pick(
+                [
+                    ('version', 'done'), ('help', 'done'), ('queue-status', 'done'), ('status', 'done'), ('api version', 'done'), ('version json', 'done'), ('help json', 'done'), ('status json', 'done'),
+                    (f'api version {version}', 'done'), ('api version 5', 'error'), ('api version banana', 'error'), ('api', 'error'), ('api frobnicate', 'error'),
+                ]
+            )  # fmt: skip
+        return cmd(line, expect, [], False, 'info', expect == 'error')
+    if kind == 'session':
+        if spell == 6:
+            line, expect = pick(
+                [
+                    ('session ping', 'done'), ('session ping 0f0e0d0c-0b0a 1700000000.5', 'done'), ('session ping text', 'done'), ('session ping 0f0e0d0c-0b0a soon', 'done'), ('session bye', 'done'), ('session bye 0f0e0d0c-0b0a', 'done'),
+                    ('session reset', 'done'), ('session sync enable', 'done'), ('session sync disable', 'done'), ('session sync', 'error'), ('session sync sideways', 'error'),
+                    ('session ack', 'error'), ('session ack sideways', 'error'), ('session frobnicate', 'error'),
+                ]
+            )  # fmt: skip
+        else:
+            line, expect = pick(
+                [('ping', 'done'), ('ping 0f0e0d0c-0b0a 1700000000.5', 'done'), ('ping text', 'done'), ('ping json', 'done'), ('bye', 'done'), ('bye 0f0e0d0c-0b0a', 'done'), ('reset', 'done'), ('enable-sync', 'done'), ('disable-sync', 'done')]
+            )
+        fx = {'session sync enable': 'sync-enable', 'enable-sync': 'sync-enable', 'session sync disable': 'sync-disable', 'disable-sync': 'sync-disable'}.get(line)
+        return cmd(line, expect, [], False, 'session', expect == 'error', fx=fx)
+    if kind == 'ack':
+        what = pick(['enable', 'enable', 'disable', 'silence'])
+        return cmd(f'session ack {what}' if spell == 6 else f'{what}-ack', 'done', [], False, 'ack', fx=f'ack-{what}')
+
+    # ------------------------------------------------------------------ groups
+    if kind == 'group-inline':
+        good = [f'announce route {prefix} next-hop 1.2.3.4 med {med}', f'withdraw route {pick(PREFIXES)} next-hop 1.2.3.4', f'announce ipv4 unicast {pick(PREFIXES)} next-hop 1.2.3.4', 'withdraw ' + VPLS_GOOD.format(n=123), 'announce ' + FLOW_GOOD[2].format(p=FLOW_PREFIXES[0])]
+        bad = ['frobnicate', 'announce route 10.66.9.0/33 next-hop 1.2.3.4', 'announce route 10.66.0.0/24 next-hop 1.2.3.999', 'route 10.66.0.0/24 next-hop 1.2.3.4']
+        form = pick(['good', 'good', 'good', 'attributes', 'mixed', 'bad', 'empty', 'v4'])
+        if form == 'v4' or (version == 4 and pick([0, 1])):
+            # a neighbor-prefixed v4 line knows announce, withdraw and teardown only
+            return cmd(f'neighbor {neighbors[0]["ip"]} group {pick(good)}', 'error', [], False, 'group-inline', True)
+        lead = f'peer {selector_text(sel)} group'
+        if form == 'empty':
+            return cmd(lead, 'error', [], selective, 'group-inline', True)
+        if form == 'good':
+            parts = [pick(good) for _ in range(pick([1, 2, 3]))]
+            return cmd(f'{lead} ' + ' ; '.join(parts), matched, who, selective, 'group-inline')
+        if form == 'attributes':
+            # shared attributes first, then the routes they apply to
+            return cmd(f'{lead} attributes next-hop 1.2.3.4 med 9 ; {pick(["announce", "withdraw"])} route {prefix} next-hop 1.2.3.4', matched, who, selective, 'group-inline')
+        if form == 'bad':
+            # every statement is refused (and reported in the data line): whatever the terminal reply says, nothing changes
+            return cmd(f'{lead} ' + ' ; '.join([pick(bad) for _ in range(pick([1, 2]))]), None if who else 'error', [], selective, 'group-inline', True)
+        parts = pick([[0, 1], [1, 0]])
+        parts = [[pick(good), pick(bad)][k] for k in parts]
+        return cmd(f'{lead} ' + ' ; '.join(parts), None if who else 'error', who, selective, 'group-inline')
+    if kind == 'group-marker':
+        # an unbalanced marker (the balanced blocks come from `blocks`): group start / end exist in v6 only
+        what = pick(['start', 'end', 'end', 'sideways'])
+        if version == 6 and what != 'sideways':
+            return cmd(f'group {what}', 'done' if what == 'start' else 'error', [], False, 'group-block', fx=f'group-{what}')
+        return cmd(f'group {what}', 'error', [], False, 'group-block', True)
+
+    # ------------------------------------------------------------------ routes by index, neighbors made at run time
+    if kind == 'routes':
+        lead = f'peer {selector_text(sel)} routes'
+        form = pick(['list', 'list-family', 'add', 'add', 'remove', 'remove-index', 'bare', 'verb', 'add-nothing', 'add-mask', 'remove-hex', 'add-short', 'remove-nothing', 'remove-mask', 'add-no-next-hop'])
+        if form in ('list', 'list-family'):
+            return cmd(f'{lead} {pick(["ipv4 unicast ", "ipv6 ", "ipv4 flow ", "frobnicate unicast ", "ipv4 frobnicate "]) if form == "list-family" else ""}list', matched, [], selective, 'routes')
+        if form == 'add':
+            return cmd(f'{lead} add route {prefix} next-hop 1.2.3.4 med {med}', matched, who, selective, 'routes')
+        if form == 'remove':
+            return cmd(f'{lead} remove route {prefix} next-hop 1.2.3.4', matched, who, selective, 'routes')
+        if form == 'remove-index':
+            # the index `routes add route 10.1.0.0/24 ...` answers with, one nobody was given, one too short to be any
+            return cmd(f'{lead} remove index {pick([ROUTE_INDEX, "00", "0101180a0100"])}', matched, who, selective, 'routes')
+        if form == 'add-short':
+            # the documented `routes add <route-spec>`: whether the spec starts with the word route is not said
+            return cmd(f'{lead} add {prefix} next-hop 1.2.3.4', None if who else 'error', who, selective, 'routes')
+        if form == 'add-no-next-hop':
+            # the route parses, the announce is refused in the data line: which terminal reply goes with that is not said
+            return cmd(f'{lead} add route 10.66.8.0/24 med {med}', None if who else 'error', [], selective, 'routes', True)
+        bad = {'bare': '', 'verb': ' frobnicate', 'add-nothing': ' add', 'add-mask': ' add route 10.66.8.0/33 next-hop 1.2.3.4', 'remove-hex': ' remove index zz', 'remove-nothing': ' remove', 'remove-mask': ' remove route 10.66.8.0/33 next-hop 1.2.3.4'}[form]
+        return cmd(f'{lead}{bad}', 'error', [], selective, 'routes', True)
+    if kind == 'peer-create':
+        lead = 'peer create' if spell == 6 else 'create neighbor'
+        ip = pick(DYNAMIC)
+        form = pick(['good', 'good', 'good', 'options', 'options-2', 'no-peer-as', 'nothing', 'address', 'twice', 'word', 'boolean', 'asn-range', 'asn-word', 'family', 'no-value', 'api-nothing', 'delete-word', 'twice-boolean'])
+        base = f'{ip} local-address 127.0.0.1 local-as 65000 peer-as 65009'
+        if form == 'good':
+            with_api = pick(['', f' api {SERVICE}'])
+            return cmd(f'{lead} {base}{with_api}', 'done', [], False, 'peer-create', fx='create', key=f'{ip} 127.0.0.1')
+        if form == 'options':
+            return cmd(
+                f'{lead} {ip} local-ip 127.0.0.1 local-as 65000 peer-as 65009 router-id 9.9.9.9 family-allowed ipv4-unicast/ipv6-unicast graceful-restart 120 group-updates false api {SERVICE}', 'done', [], False, 'peer-create', fx='create', key=f'{ip} 9.9.9.9'
+            )
+        if form == 'options-2':
+            return cmd(f'{lead} {base} family-allowed in-open graceful-restart 0 group-updates true create', 'done', [], False, 'peer-create', fx='create', key=f'{ip} 127.0.0.1')
+        bad = {
+            'asn-range': f'{ip} local-address 127.0.0.1 local-as 65000 peer-as 4294967296',
+            'asn-word': f'{ip} local-address 127.0.0.1 local-as banana peer-as 65009',
+            'family': f'{base} family-allowed ipv4',
+            'no-value': f'{ip} local-address 127.0.0.1 local-as 65000 peer-as',
+            'api-nothing': f'{base} api',
+            'delete-word': f'{base} delete',
+            'twice-boolean': f'{base} group-updates true group-updates false',
+            'no-peer-as': f'{ip} local-address 127.0.0.1 local-as 65000',
+            'nothing': '',
+            'address': 'banana local-address 127.0.0.1 local-as 65000 peer-as 65009',
+            'twice': f'{base} peer-as 65010',
+            'word': f'{base} frobnicate 3',
+            'boolean': f'{base} group-updates maybe',
+        }[form]
+        return cmd(f'{lead} {bad}'.rstrip(), 'error', [], False, 'peer-create', True)
+    if kind == 'peer-delete':
+        lead = 'peer delete' if spell == 6 else 'delete neighbor'
+        target = pick(DYNAMIC + GHOSTS[:3] + [''])
+        # an address made by `peer create` may or may not be there; nobody has the others
+        return cmd(f'{lead} {target}'.rstrip(), None if target in DYNAMIC else 'error', [], False, 'peer-delete', target == '')
+    if kind == 'daemon':
+        what = pick(['reload', 'restart'])
+        # the configuration is read again (it did not change): every neighbor may be rebuilt, whenever the reactor gets to it
+        return cmd(f'daemon {what}' if spell == 6 else what, 'done', everyone, False, 'daemon', fx='reload')
+    # noise: the same announce with white space a helper may well write
+    line = f'{head}announce route {prefix} next-hop 1.2.3.4 med {med}'
+    line = pick([' ' + line, line + '  ', line.replace(' next-hop', '   next-hop'), line.replace(' med', '\tmed'), '\t' + line + ' \t'])
+    return cmd(line, matched, who, selective, 'white-space')
+
+
+BUFFERED_KINDS = ['announce', 'announce', 'withdraw', 'valid-multi', 'invalid-multi', 'invalid-route', 'family-unicast', 'flow', 'vpls', 'attributes', 'watchdog', 'eor']
+
+
+@st.composite
+def blocks(draw, neighbors, version):
+    """a list of lines: one command, or a balanced block - acknowledgements switched off and on again around a few
+    commands, `group start` ... `group end` around lines without a selector (which v6 buffers; v4 has no such block
+    and executes them at once) and the occasional other command"""
+    what = draw(st.sampled_from(['one'] * 22 + ['ack-off', 'group']))
+    if what == 'one':
+        return [draw(command(neighbors, version))]
+    inner = draw(st.lists(command(neighbors, version), min_size=0, max_size=3))
+    if what == 'ack-off':
+        spell = 6 if version == 6 else draw(st.sampled_from([4, 6]))
+        off = draw(st.sampled_from(['disable', 'silence']))
+        words = (lambda w: f'session ack {w}') if spell == 6 else (lambda w: f'{w}-ack')
+        return [cmd(words(off), 'done', [], False, 'ack', fx=f'ack-{off}')] + inner + [cmd(words('enable'), 'done', [], False, 'ack', fx='ack-enable')]
+    # lines as v4 writes them for every neighbor: v6 knows them inside a group block only
+    lines = []
+    for _ in range(draw(st.integers(0, 4))):
+        # without a selector the line is for every neighbor of the process
+        c = draw(command(neighbors, 4, BUFFERED_KINDS, for_everyone=True))
+        if version == 6:
+            # outside a block v6 does not know the spelling; inside one, what counts is whether the line itself parses
+            c.update(expect='error', touch=[], refused_in_block=c['refused'], refused=True, fam='group-buffered')
+        lines.append(c)
+        if draw(st.sampled_from([False] * 5 + [True])):
+            lines.append(draw(command(neighbors, version)))
+    start = cmd('group start', 'done', [], False, 'group-block', fx='group-start') if version == 6 else cmd('group start', 'error', [], False, 'group-block', True)
+    end = cmd('group end', 'error', [], False, 'group-block', fx='group-end') if version == 6 else cmd('group end', 'error', [], False, 'group-block', True)
+    return [start] + lines + ([end] if draw(st.sampled_from([True] * 7 + [False])) else [])
 
 
 @st.composite
 def cases(draw):
     n = draw(st.sampled_from([1, 2, 3, 3, 4, 6, 6]))
     neighbors = POOL[:n]
-    version = draw(st.sampled_from([6, 6, 6, 4]))
-    cmds = draw(st.lists(command(neighbors, version), min_size=1, max_size=30))
+    version = draw(st.sampled_from([6, 6, 6, 4, 4]))
+    # the length is drawn (a list strategy left to itself stops early: eight lines on average)
+    length = draw(st.sampled_from([1, 2, 3, 4, 5, 6, 8, 10, 12, 14, 16, 20, 24, 30]))
+    cmds = [c for block in draw(st.lists(blocks(neighbors, version), min_size=length, max_size=length)) for c in block][:30]
+    if draw(st.sampled_from([False] * 11 + [True])):
+        # the daemon ends: only ever the last line
+        spell = 6 if version == 6 else draw(st.sampled_from([4, 6]))
+        cmds = cmds[:29] + [cmd('daemon shutdown' if spell == 6 else 'shutdown', 'done', list(range(n)), False, 'shutdown', fx='shutdown')]
     stream_len = sum(len(c['line']) + 1 for c in cmds)
     mode = draw(st.sampled_from(['whole', 'lines', 'cuts', 'cuts', 'bytewise']))
     cuts = sorted(draw(st.lists(st.integers(1, max(1, stream_len - 1)), max_size=10, unique=True))) if mode == 'cuts' else []
-    return {'n': n, 'version': version, 'commands': cmds, 'mode': mode, 'cuts': cuts}
+    # which neighbors have their BGP session up when the first line is written (eor, route-refresh, operational, teardown
+    # and the sync suffix only do something on an established session)
+    up = draw(st.sampled_from(['none', 'none', 'none', 'all', 'all', 'first', 'some']))
+    up = {'none': [], 'all': list(range(n)), 'first': [0]}.get(up)
+    if up is None:
+        up = sorted(draw(st.sets(st.integers(0, n - 1), min_size=1, max_size=n)))
+    return {'n': n, 'version': version, 'commands': cmds, 'mode': mode, 'cuts': cuts, 'up': up}
+
+
+# ---------------------------------------------------------------------------- every form once: the fixed tours
+
+
+class Walk:
+    """pick() for the enumeration: follows a list of option indexes, then takes the first option; remembers the choice
+    points it met (the source line of the call identifies one)"""
+
+    def __init__(self, path: list[int]) -> None:
+        self.path = path
+        self.taken: list[int] = []
+        self.points: list[tuple[int, int]] = []
+
+    def __call__(self, options):
+        i = len(self.taken)
+        k = self.path[i] if i < len(self.path) else 0
+        self.taken.append(k)
+        self.points.append((sys._getframe(1).f_lineno, len(options)))
+        return options[k]
+
+
+def every_form(make) -> list[dict]:
+    """make(pick) for every option of every choice point the grammar reaches (each option at least once, the later
+    choices at their first option): an enumeration, nothing is drawn"""
+    covered: set[tuple[int, int]] = set()
+    out, todo = [], [[]]
+    while todo:
+        walk = Walk(todo.pop(0))
+        out.append(make(walk))
+        for i, (site, arity) in enumerate(walk.points):
+            if i < len(walk.path):
+                continue
+            for k in range(1, arity):
+                if (site, k) not in covered:
+                    covered.add((site, k))
+                    todo.append(walk.taken[:i] + [k])
+    return out
+
+
+def tours() -> list[dict]:
+    """enumerated cases run in every tier: every form of every command, under both API versions, three neighbors, the
+    selector naming the first of them (so that every command family meets the selector clause), then the other shapes
+    of selector; a block of buffered lines; the acknowledgements switched off around a few commands; a shutdown"""
+    n = 3
+    neighbors = POOL[:n]
+    first = {'ip': neighbors[0]['ip'], 'terms': []}
+    shapes = [
+        {'kind': 'single', 'items': [first]},
+        {'kind': 'all'},
+        {'kind': 'single', 'items': [{'ip': GHOSTS[0], 'terms': []}]},
+        {'kind': 'list', 'items': [first, {'ip': neighbors[2]['ip'], 'terms': [['peer-as', neighbors[2]['peer_as']]]}]},
+        {'kind': 'single', 'items': [{'ip': neighbors[0]['ip'], 'terms': [['peer-as', 64000]]}]},
+        {'kind': 'single', 'items': [{'ip': neighbors[1]['ip'], 'terms': [['local-as', neighbors[1]['local_as']], ['family-allowed', 'in-open']]}]},
+    ]
+    kinds = [k for _, k in KINDS]
+    out = []
+    for version in (6, 4):
+        plain, last = [], []
+        for c in every_form(lambda pick: build(pick, neighbors, version, shapes[0], kinds)):  # noqa: B023
+            (last if c.get('fx') == 'reload' else plain).append(c)
+        # the other selector shapes on the kinds that take a selector in both spellings
+        for shape in shapes[1:]:
+            for kind in ('announce', 'invalid-route', 'flow', 'vpls', 'attributes', 'operational', 'teardown', 'watchdog', 'eor-families', 'group-inline', 'routes', 'peer-show'):
+                plain.append(build(Walk([]), neighbors, version, shape, [kind]))
+        enable = cmd('session ack enable', 'done', [], False, 'ack', fx='ack-enable')
+        sequences: list[list[dict]] = [[]]
+        for c in plain:
+            if len(sequences[-1]) >= 24:
+                sequences.append([])
+            sequences[-1].append(c)
+            if c.get('fx') in ('ack-disable', 'ack-silence'):
+                # three commands without a terminal reply (a refused one among them), then the acknowledgements are back
+                sequences[-1] += [build(Walk([]), neighbors, version, shapes[0], [k]) for k in ('announce', 'invalid-route', 'info')] + [enable]
+            if c.get('fx') == 'group-start':
+                sequences[-1].append(cmd('group end', 'error', [], False, 'group-block', fx='group-end'))
+        for c in last:
+            # the configuration is read again: from there on every neighbor may change
+            min(sequences, key=len).append(c)
+        if version == 6:
+            buffered = []
+            for c in every_form(lambda pick: build(pick, neighbors, 4, {'kind': 'all'}, BUFFERED_KINDS)):
+                buffered.append(dict(c, expect='error', touch=[], refused_in_block=c['refused'], refused=True, fam='group-buffered'))
+            while buffered:
+                part, buffered = buffered[:20], buffered[20:]
+                sequences.append([cmd('group start', 'done', [], False, 'group-block', fx='group-start')] + part + [cmd('group end', 'error', [], False, 'group-block', fx='group-end'), build(Walk([]), neighbors, 6, shapes[0], ['rib-show'])])
+        sequences[-1] = sequences[-1][:29] + [cmd('daemon shutdown' if version == 6 else 'shutdown', 'done', list(range(n)), False, 'shutdown', fx='shutdown')]
+        # the neighbor without most families, alone: nothing of these families is in its RIB, nothing gets there
+        lone = {'kind': 'single', 'items': [{'ip': neighbors[2]['ip'], 'terms': []}]}
+        head = f'peer {neighbors[2]["ip"]} ' if version == 6 else f'neighbor {neighbors[2]["ip"]} '
+        specs = [('ipv6-unicast', 'ipv6 unicast 2001:db8:1::/48 next-hop 2001:db8::1'), ('ipv6-unicast', 'route 2001:db8:2::/48 next-hop 2001:db8::1'), ('ipv4-mpls-vpn', 'ipv4 mpls-vpn 10.3.0.0/24 next-hop 1.2.3.4 rd 65000:1 label [ 100 ]')]
+        specs += [('vpls', VPLS_GOOD.format(n=123)), ('attributes', 'attributes next-hop 2001:db8::1 nlri 2001:db8:1::/48')]
+        sequences.append([cmd(f'{head}{verb} {spec}', 'done', [2], True, fam) for fam, spec in specs for verb in ('announce', 'withdraw')] + [build(Walk([]), neighbors, version, lone, [k]) for k in ('flow', 'operational', 'routes')])
+        for k, cmds in enumerate(sequences):
+            mode = ['lines', 'whole', 'cuts', 'bytewise'][k % 4] if k else 'bytewise'
+            size = sum(len(c['line']) + 1 for c in cmds)
+            out.append({'n': n, 'version': version, 'commands': cmds, 'mode': mode, 'cuts': list(range(7, size, 53)) if mode == 'cuts' else [], 'up': []})
+        # every session up: the commands which need one, every form; then commands which wait for the wire, each with
+        # something new to send (sync as a word of the line, then as the mode of the process)
+        with_session = [c for kind in ('eor', 'refresh', 'eor-families', 'refresh-families', 'operational', 'watchdog', 'teardown') for c in every_form(lambda pick: build(pick, neighbors, version, shapes[0], [kind]))]  # noqa: B023
+        with_session += [build(Walk([]), neighbors, version, shape, [kind]) for shape in shapes[1:] for kind in ('eor', 'refresh-families', 'teardown')]
+        spell = (lambda six, four: six) if version == 6 else (lambda six, four: four)
+        everybody = 'peer * ' if version == 6 else ''
+        waiting = [
+            cmd(f'{everybody}announce route 10.8.0.0/24 next-hop 1.2.3.4 sync', 'done', range(n), False, 'route'),
+            cmd(f'{everybody}withdraw route 10.8.0.0/24 next-hop 1.2.3.4 json sync', 'done', range(n), False, 'route'),
+            cmd(spell('session sync enable', 'enable-sync'), 'done', [], False, 'session', fx='sync-enable'),
+            cmd(f'{everybody}announce route 10.8.1.0/24 next-hop 1.2.3.4 med 7', 'done', range(n), False, 'route'),
+            cmd(f'{everybody}announce route 10.8.2.0/24 next-hop 1.2.3.4 async', 'done', range(n), False, 'route'),
+            cmd(f'peer {neighbors[0]["ip"]} group announce route 10.8.3.0/24 next-hop 1.2.3.4 ; announce route 10.8.4.0/24 next-hop 1.2.3.4', 'done', [0], True, 'group-inline'),
+            cmd(spell('session sync disable', 'disable-sync'), 'done', [], False, 'session', fx='sync-disable'),
+            cmd(spell('rib show out', 'show adj-rib out'), 'done', [], False, 'rib-show'),
+        ]
+        for k in range(0, len(with_session), 26):
+            out.append({'n': n, 'version': version, 'commands': with_session[k : k + 26], 'mode': 'lines', 'cuts': [], 'up': list(range(n))})
+        out.append({'n': n, 'version': version, 'commands': waiting, 'mode': 'whole', 'cuts': [], 'up': list(range(n))})
+    return out
+
+
+def annotate(cmds: list[dict], version: int, n: int, up: list[int] | None = None) -> list[dict]:
+    """what each line is expected to get, given the acknowledgement and grouping state the lines before it left
+    (adds 'replies': terminal replies expected, 0 or 1).  Lines of stored cases carry no 'fx' and pass unchanged."""
+    everyone = list(range(n))
+    ack, grouping, buffered = True, False, 0
+    # the sessions which were up at the start stay up until a line may bring one down
+    sessions = set(up or [])
+    sync_mode, block_sync = False, False
+    created: set[str] = set()
+    out = []
+    for c in cmds:
+        c = dict(c)
+        c.setdefault('fam', 'route')
+        c.setdefault('refused', c['expect'] == 'error')
+        fx = c.get('fx')
+        low = c['line'].strip().lower()
+        replies = 1 if ack else 0
+        # does the command wait for the wire (a trailing sync / async word decides, else the mode of the process)?
+        tail = [w for w in c['line'].split()[-2:] if w in ('sync', 'async')]
+        c['sync'] = (tail[-1] == 'sync') if tail else sync_mode
+        if grouping and low.startswith(('announce', 'withdraw')):
+            # buffered until `group end`: acknowledged, nothing happens yet (the first line says whether the block waits)
+            c.update(expect='done', touch=[], buffered=True, refused=c.get('refused_in_block', c['refused']))
+            buffered += 1
+            if buffered == 1:
+                block_sync = c['sync']
+            c['sync'] = False
+        elif fx == 'group-start':
+            c['expect'] = 'error' if grouping else 'done'
+            c['refused'] = grouping
+            if not grouping:
+                grouping, buffered = True, 0
+        elif fx == 'group-end':
+            c['expect'] = 'done' if grouping else 'error'
+            c['refused'] = not grouping
+            c['touch'] = everyone if grouping and buffered else []
+            c['sync'] = bool(grouping and buffered and block_sync)
+            grouping = False
+        elif fx == 'ack-enable':
+            ack, replies = True, 1
+        elif fx == 'ack-disable':
+            ack, replies = False, 1
+        elif fx == 'ack-silence':
+            ack, replies = False, 0
+        elif fx == 'create':
+            if c['key'] in created:
+                c['expect'] = None
+            created.add(c['key'])
+        elif fx == 'teardown' and c['touch']:
+            sessions -= set(c['touch'])
+        elif fx in ('reload', 'shutdown', 'sessions-unknown'):
+            sessions = set()
+        elif c.get('session') and c['expect'] is None and sessions & set(c['touch']):
+            # one of the neighbors it names is established: the command has somebody to go to
+            c['expect'] = 'done'
+        if fx in ('sync-enable', 'sync-disable'):
+            sync_mode = fx == 'sync-enable'
+        c['replies'] = replies
+        out.append(c)
+    return out
 
 
 def config(n: int) -> str:
     text = nh.process_section()
     for nb in POOL[:n]:
-        text += exa.neighbor_text(peer_ip=nb['ip'], local_ip=nb.get('local_ip', '127.0.0.1'), local_as=nb['local_as'], peer_as=nb['peer_as'], router_id=nb['rid'], families=['ipv4 unicast'], capability={'route-refresh': 'enable'}, body=nh.api_section(changes=False) + '\n  static {\n    route 10.7.0.0/24 next-hop 1.2.3.4 watchdog dog1;\n    route 10.7.1.0/24 next-hop 1.2.3.4 watchdog dog2 withdraw;\n  }')
+        text += exa.neighbor_text(
+            peer_ip=nb['ip'],
+            local_ip=nb.get('local_ip', '127.0.0.1'),
+            local_as=nb['local_as'],
+            peer_as=nb['peer_as'],
+            router_id=nb['rid'],
+            families=nb.get('families', FAMILIES),
+            capability={'route-refresh': 'enable', 'operational': 'enable'},
+            body=nh.api_section(changes=False) + '\n  static {\n    route 10.7.0.0/24 next-hop 1.2.3.4 watchdog dog1;\n    route 10.7.1.0/24 next-hop 1.2.3.4 watchdog dog2 withdraw;\n  }',
+        )
     return text
 
 
@@ -198,9 +843,11 @@ def fingerprint(peer) -> tuple:
         tuple(sorted((name, tuple(sorted((sign, tuple(sorted(map(repr, routes)))) for sign, routes in groups.items()))) for name, groups in out._watchdog.items())),
         tuple(str(x) for x in n.eor),
         tuple(str(x) for x in n.refresh),
-        len(n.messages),
+        tuple(x.extensive() for x in n.messages),
         tuple(sorted(str(f) for f in out._refresh_families)),
         len(out._refresh_routes),
+        tuple(sorted((str(f), m.extensive()) for f, m in n.asm.items())),
+        sum(1 for _ in n.rib.incoming.cached_routes()),
     )
 
 
@@ -219,8 +866,15 @@ def terminal(line: str) -> str | None:
 
 
 def check(case: dict) -> dict:
-    cmds = case['commands']
-    stream = ''.join(c['line'] + '\n' for c in cmds).encode()
+    from exabgp.reactor.api.command import group as group_cmd
+
+    version = case['version']
+    up = [i for i in case.get('up', []) if i < case['n']]
+    cmds = annotate(case['commands'], version, case['n'], up)
+    # a shutdown (only ever the last line) is written once everything before it was answered: what the daemon still
+    # holds for the helper when it ends is not the property's business
+    farewell = cmds[-1]['line'].encode() + b'\n' if cmds and cmds[-1].get('fx') == 'shutdown' else b''
+    stream = ''.join(c['line'] + '\n' for c in (cmds[:-1] if farewell else cmds)).encode()
     mode = case['mode']
     if mode == 'whole':
         cuts: list[int] = []
@@ -236,85 +890,203 @@ def check(case: dict) -> dict:
             chunks.append(stream[prev:c])
         prev = c
     out: dict = {'steps': []}
+    classes: list[str] = []
+
+    def flag(signature: str, message: str) -> None:
+        if any(fnmatch.fnmatchcase(signature, p) for p in TOLERATED):
+            if f'tolerated:{signature}' not in classes:
+                classes.append(f'tolerated:{signature}')
+            return
+        raise Violation(signature, message)
 
     async def main(loop):
-        with nh.Harness(loop, config_text=config(case['n']), env={'api.version': case['version']}) as hn:
+        with nh.Harness(loop, config_text=config(case['n']), env={'api.version': version}) as hn:
             if not hn.reload_ok:
                 raise RuntimeError(f'configuration refused: {hn.reactor.configuration.error}')
-            hn.connect_policy = lambda a, b: False
             seen: list[str] = []
+            written: list[tuple[int, str]] = []
             real = hn.reactor.api.process
+            # the neighbors of the configuration, by address (a neighbor made by `peer create` is not one of them)
+            base = {str(p.neighbor.session.peer_address): key for key, p in hn.reactor._peers.items()}
+            # the remote speakers of the neighbors whose session is up: they answer the OPEN, send keepalives, and count
+            # what they are sent
+            speakers = {base[POOL[i]['ip']]: POOL[i] for i in up}
+            hn.connect_policy = lambda harness, proto: harness._peer_key(proto.peer) in speakers
+            serving: list = []
+
+            async def serve(remote) -> None:
+                nb = speakers[remote.key]
+                caps = [wire.cap_mp(*FAMILY_CODES[f]) for f in nb.get('families', FAMILIES)] + [wire.cap_asn4(nb['peer_as']), wire.cap_refresh(), wire.capability(0xB9, b'')]
+                if not await nh.establish(remote, nh.open_from(nb['peer_as'], 180, 0x09090900 + POOL.index(nb), caps), timeout=20.0):
+                    return
+                while remote.closed_at is None and remote.local_closed_at is None:
+                    await asyncio.sleep(20.0)
+                    await remote.send_msg(codec.KEEPALIVE)
+
+            hn.on_outgoing = lambda remote: serving.append(loop.create_task(serve(remote)))
+
+            def sent_to(key: str) -> tuple:
+                # what the neighbor's remote speaker was sent, keepalives and OPENs aside, over all its sessions
+                kinds: dict[int, int] = {}
+                for r in hn.remotes:
+                    if r.key == key:
+                        for _, mtype, _ in r.messages:
+                            if mtype not in (codec.OPEN, codec.KEEPALIVE):
+                                kinds[mtype] = kinds.get(mtype, 0) + 1
+                return tuple(sorted(kinds.items())) + (sum(1 for r in hn.remotes if r.key == key),)
+
+            def snapshot() -> dict:
+                peers = hn.reactor._peers
+                return {ip: fingerprint(peers[key]) + sent_to(key) if key in peers else None for ip, key in base.items()}
 
             def spy(reactor, service, cmd):
                 seen.append(cmd)
-                snap_before = [fingerprint(p) for p in hn.reactor._peers.values()]
-                out['steps'].append({'command': cmd, 'before': snap_before})
+                out['steps'].append({'command': cmd, 'before': snapshot()})
                 return real(reactor, service, cmd)
 
+            processes = hn.reactor.processes
+            real_write = processes.write
+
+            def write(process, string, *args):
+                # recorder: which command was the last one handed over when this line was queued for the helper
+                if string is not None:
+                    written.append((len(seen) - 1, string))
+                return real_write(process, string, *args)
+
             hn.reactor.api.process = spy
+            processes.write = write
             hn.start()
             await hn.sleep(0.3)
+            if speakers:
+                waited = 0.0
+                while any(hn.reactor._peers[key].fsm.name() != 'ESTABLISHED' for key in speakers) and waited < 40.0:
+                    await hn.sleep(0.5)
+                    waited += 0.5
+                if waited >= 40.0:
+                    raise Inconclusive(f'sessions not established after 40 s: {[hn.reactor._peers[key].fsm.name() for key in speakers]}')
+                # the configured routes and the End-of-RIB markers go out
+                await hn.sleep(3.0)
             # feed one line at a time *logically*: the fingerprints are taken when each command is executed, and once more
             # after everything has settled; chunking is whatever the case says
+            # the helper reads what it is sent all along (the pipe holds 64 kB: a dozen `peer show` replies)
             for ch in chunks:
                 hn.api_write(ch)
                 await hn.sleep(0.01)
+                hn.api_read()
             await hn.sleep(1.0)
-            # the reactor reads one command per process and loop iteration, and an idle iteration may sleep 0.1 s: the time to
-            # wait grows with the number of commands (a fixed 2 s was a harness error: a 29th command was "not executed")
-            waited = 0.0
-            while len(seen) < len(cmds) and waited < 2.0 + 0.3 * len(cmds):
-                await hn.sleep(0.2)
-                waited += 0.2
+            hn.api_read()
+
+            # the reactor reads one command per process and loop iteration, an idle iteration may sleep 0.1 s, and it hands
+            # ten lines per iteration to the helper (the data lines of `show neighbor extensive` take seconds): wait until
+            # every command was read and everything queued for the helper went out (a fixed 2 s was a harness error: a
+            # 29th command was "not executed")
+            def busy(count: int) -> bool:
+                return len(seen) < count or any(processes._write_queue.values()) or bool(hn.reactor.asynchronous._async) or bool(processes._command_queue)
+
+            for count, more in ((len(cmds) - 1, farewell), (len(cmds), b'')) if farewell else ((len(cmds), b''),):
+                waited = 0.0
+                while busy(count) and not hn.main_task.done() and waited < 10.0 + 4.0 * len(cmds):
+                    await hn.sleep(0.2)
+                    hn.api_read()
+                    waited += 0.2
+                if more:
+                    hn.api_write(more)
             # settle: the handlers of some commands run as scheduled callbacks
             for _ in range(5):
                 await hn.sleep(0.2)
             hn.api_read()
             out['seen'] = seen
-            out['final'] = [fingerprint(p) for p in hn.reactor._peers.values()]
+            out['final'] = snapshot()
             out['replies'] = [line for _, line in hn.api_lines]
-            out['order'] = [str(p.neighbor.session.peer_address) for p in hn.reactor._peers.values()]
+            out['written'] = written
+            for task in serving:
+                task.cancel()
 
-    vloop.run(main)
+    group_cmd.clear_group(SERVICE)
+    try:
+        # `peer create` prints the traceback of every refused line on stderr
+        with contextlib.redirect_stderr(io.StringIO()):
+            vloop.run(main)
+    finally:
+        group_cmd.clear_group(SERVICE)
 
-    version = case['version']
+    if os.environ.get('VERIF_C14_DEBUG'):
+        # development aid: what the helper read, and the last fingerprint of every neighbor
+        print('\n'.join(f'    {line[:200]}' for line in out['replies']), file=sys.stderr)
+        print('\n'.join(f'  {ip}: {snap}' for ip, snap in out['final'].items()), file=sys.stderr)
+    pool = [nb['ip'] for nb in POOL[: case['n']]]
     expected_lines = [' '.join(c['line'].split()) for c in cmds]
     got_lines = [' '.join(s.split()) for s in out['seen']]
+    if got_lines and len(got_lines) < len(expected_lines) and got_lines == expected_lines[: len(got_lines)]:
+        # nothing was garbled: the reactor stopped reading commands after one of them
+        last = cmds[len(got_lines) - 1]
+        how = 'a-command-which-waits-for-the-wire' if last['sync'] and any(w in last['line'] for w in ('announce', 'withdraw', 'group')) else last['fam']
+        flag(f'order:api-stalls-after:{how}', f'command {len(got_lines) - 1} "{last["line"]}" is the last one executed, {len(expected_lines) - len(got_lines)} more were written and never read; sessions up {[POOL[i]["ip"] for i in up]}; neighbors {[nb["ip"] for nb in POOL[: case["n"]]]} api v{version}; mode {mode}')
+        # tolerated: nothing after it can be judged
+        return {'nontrivial': False, 'classes': classes + ['stalled']}
     if got_lines != expected_lines:
         k = next((i for i, (a, b) in enumerate(zip(got_lines, expected_lines)) if a != b), min(len(got_lines), len(expected_lines)))
         raise Violation('order:commands-differ', f'command {k}: executed {got_lines[k:k + 2]} written {expected_lines[k:k + 2]} (executed {len(got_lines)} of {len(expected_lines)}); mode {mode}')
 
-    # acknowledgements
+    # acknowledgements: the verdict is on what the helper reads from the pipe; the write recorder only names the command
     terms = [t for t in (terminal(line) for line in out['replies']) if t]
-    if len(terms) != len(cmds):
-        raise Violation('ack:count', f'{len(terms)} terminal replies for {len(cmds)} commands: {terms} for {expected_lines}')
-    for i, (c, t) in enumerate(zip(cmds, terms)):
-        if c['expect'] is not None and t != c['expect']:
-            raise Violation(f'ack:{c["expect"]}-expected-got-{t}', f'command {i} "{c["line"]}" with neighbors {[n["ip"] for n in POOL[:case["n"]]]} (api v{version})')
+    by_command: dict[int, list[str]] = {}
+    for index, string in out['written']:
+        t = terminal(string)
+        if t:
+            by_command.setdefault(index, []).append(t)
+    expected: list[tuple[int, str | None]] = []
+    for i, c in enumerate(cmds):
+        wrote = by_command.get(i, [])
+        if len(wrote) != c['replies']:
+            kind = 'no-terminal-reply' if len(wrote) < c['replies'] else 'terminal-reply-with-acknowledgements-off' if not c['replies'] else 'several-terminal-replies'
+            if kind == 'no-terminal-reply' and c['sync'] and i == len(cmds) - 1 and any(w in c['line'] for w in ('announce', 'withdraw', 'group')):
+                # the last line, waiting for the wire for ever: the stall above, with no later line to show it
+                flag('order:api-stalls-after:a-command-which-waits-for-the-wire', f'command {i} "{c["line"]}" (the last one) is never answered; sessions up {[POOL[j]["ip"] for j in up]}; neighbors {pool} api v{version}')
+                continue
+            flag(f'ack:{kind}:{c["fam"]}', f'command {i} "{c["line"]}" wrote the terminal replies {wrote}, {c["replies"]} expected; neighbors {pool} (api v{version}); commands so far {[x["line"] for x in cmds[max(0, i - 3) : i + 1]]}')
+            # tolerated: take what was written for this command as it is
+            expected += [(i, t) for t in wrote]
+        elif c['replies']:
+            expected.append((i, c['expect']))
+    if len(terms) != len(expected):
+        raise Violation('ack:count', f'{len(terms)} terminal replies on the pipe for {len(expected)} expected: {terms} for {expected_lines}')
+    for (i, want), t in zip(expected, terms):
+        c = cmds[i]
+        if want is not None and t != want:
+            fam = '' if c['fam'] in LEGACY_FAMILIES else f':{c["fam"]}'
+            flag(f'ack:{want}-expected-got-{t}{fam}', f'command {i} "{c["line"]}" with neighbors {pool} (api v{version}); commands so far {[x["line"] for x in cmds[max(0, i - 3) : i + 1]]}')
+            if t == 'done':
+                # tolerated: the command was carried out, on whoever (its effect is reported under its own signature below)
+                c['carried_out'] = True
 
     # side effects: fingerprint before command i vs before command i+1 (or final)
-    order = out['order']
-    index_of = {nb['ip']: order.index(nb['ip']) for nb in POOL[: case['n']]}
     snaps = [s['before'] for s in out['steps']] + [out['final']]
     # handlers are scheduled: a command's effect may land after the next command was read. Compare cumulatively:
     # a neighbor that no command up to i was allowed to touch must be unchanged at i+1.
-    allowed: set[int] = set()
+    allowed: set[str] = set()
     for i, c in enumerate(cmds):
-        allowed |= {index_of[POOL[j]['ip']] for j in c['touch']}
+        allowed |= {POOL[j]['ip'] for j in c['touch']}
         after = snaps[i + 1]
-        for j in range(case['n']):
-            pos = index_of[POOL[j]['ip']]
-            if pos not in allowed and after[pos] != snaps[0][pos]:
-                kind = 'rejected-command-changed-rib' if c['expect'] == 'error' else 'unselected-neighbor-changed'
-                raise Violation(f'effect:{kind}', f'neighbor {POOL[j]["ip"]} changed by "{c["line"]}" (command {i}); neighbors {[n["ip"] for n in POOL[:case["n"]]]} api v{version}')
+        for ip in pool:
+            if ip not in allowed and after[ip] != snaps[0][ip]:
+                kind = 'rejected-command-changed-rib' if c['refused'] else 'unselected-neighbor-changed'
+                fam = '' if c['fam'] in LEGACY_FAMILIES else f':{c["fam"]}'
+                flag(f'effect:{kind}{fam}', f'neighbor {ip} {"is gone" if after[ip] is None else "changed"} by "{c["line"]}" (command {i}); neighbors {pool} api v{version}')
+                allowed.add(ip)
+        if c.get('carried_out') or (c['expect'] == 'error' and not c['replies'] and any(p.endswith(f':{c["fam"]}') for p in TOLERATED)):
+            # a tolerated defect (with the acknowledgements off the reply cannot tell: assumed): what it did may land any
+            # time from here on
+            allowed |= set(pool)
     # nothing named only by refused commands is ever in a RIB, on any neighbor, at any step (the neighbor-level comparison above
     # cannot see a leftover that a later accepted command carries along to the neighbors it is allowed to change)
     for i, snap in enumerate(snaps):
         text = repr(snap)
-        if '10.66.' in text:
+        if any(mark in text for mark in GHOST_MARKS):
             j = max(0, i - 1)
-            raise Violation('effect:route-of-a-refused-command-in-a-rib', f'after command {j} "{cmds[j]["line"]}": {[g for g in GHOST_PREFIXES + ["10.66.9.0"] if g.split("/")[0] in text]} present; commands so far {[c["line"] for c in cmds[: j + 1]][-4:]}')
-    rejected = any(c['expect'] == 'error' for c in cmds)
+            flag('effect:route-of-a-refused-command-in-a-rib', f'after command {j} "{cmds[j]["line"]}": {[g for g in GHOST_PREFIXES + ["10.66.9.0"] + GHOST_MARKS if g.split("/")[0] in text]} present; commands so far {[c["line"] for c in cmds[: j + 1]][-4:]}')
+            break
+    rejected = any(c['refused'] for c in cmds)
     selective = any(c['selective'] for c in cmds) and case['n'] >= 2
     inside = False
     pos = 0
@@ -322,18 +1094,34 @@ def check(case: dict) -> dict:
         pos += len(ch)
         if stream[pos - 1] != 10:
             inside = True
-    classes = [f'api-v{version}', f'mode:{mode}', f'neighbors:{case["n"]}']
+    classes += [f'api-v{version}', f'mode:{mode}', f'neighbors:{case["n"]}', 'sessions:' + ('none' if not up else 'all' if len(up) == case['n'] else 'some')]
+    if any(c.get('session') and c['expect'] == 'done' for c in cmds):
+        classes.append('sessions:eor-or-refresh-for-an-established-neighbor')
     if rejected:
         classes.append('rejected-command')
     if selective:
         classes.append('selective')
     if any(' ; ' in c['line'] for c in cmds):
         classes.append('multi-statement-command')
-    if any(' ; ' in c['line'] and c['expect'] == 'error' for c in cmds):
+    if any(' ; ' in c['line'] and c['refused'] for c in cmds):
         classes.append('multi-statement-command-refused')
-    if any(c['expect'] == 'error' and c['selective'] and 'frobnicate' not in c['line'] and '/33' not in c['line'] for c in cmds):
+    if any(c['expect'] == 'error' and c['selective'] and not c['refused'] for c in cmds):
         classes.append('selector-matches-nobody')
+    for fam in sorted({c['fam'] for c in cmds}):
+        classes.append(f'command:{fam}')
+    for fam in sorted({c['fam'] for c in cmds if c['refused']}):
+        classes.append(f'command:{fam}:refused')
+    if any(not c['replies'] for c in cmds):
+        classes.append('acknowledgements-off:some-commands')
+    if any(c.get('buffered') for c in cmds):
+        classes.append('group-block:lines-buffered')
+    if any(c.get('buffered') and c['refused'] for c in cmds):
+        classes.append('group-block:refused-line-buffered')
+    if any(c.get('fx') == 'group-end' and c['expect'] == 'done' and c['touch'] for c in cmds):
+        classes.append('group-block:ended-with-lines')
+    if any(t is None for _, t in expected):
+        classes.append('either-reply-accepted')
     return {'nontrivial': rejected and selective and inside, 'classes': classes}
 
 
-ENGINES = [Engine('sequences', cases, check, quick=200, thorough=8000, batch=200, thorough_s=1200.0)]
+ENGINES = [Engine('sequences', cases, check, quick=300, thorough=8000, batch=200, quick_s=30.0, thorough_s=1200.0, fixed_cases=tours)]
